@@ -102,7 +102,11 @@ func init() {
 			}
 			return fr.m.opaqueStr("symbolic duration text"), true
 		},
-		"time.Sleep":           func(fr *frame, a []value) (value, bool) { fr.m.schedPoint("sleep"); return nil, true },
+		"time.Sleep": func(fr *frame, a []value) (value, bool) {
+			fr.m.cur.sleptSinceDone = true
+			fr.m.schedPoint("sleep")
+			return nil, true
+		},
 		"time.NewTicker":       inNewTicker,
 		"(*time.Ticker).Stop":  inNop,
 		"(*time.Ticker).Reset": inNop,
@@ -1134,6 +1138,9 @@ func (c *ctxV) callMethod(fr *frame, name string, args []value) value {
 		return c.done
 	case "Err":
 		m.schedPoint("ctx.Err")
+		// a look at the cancellation, like a select on Done
+		m.lastDoneSawClosed[m.cur.id] = c.cancelled()
+		m.cur.sleptSinceDone = false
 		if c.cancelled() {
 			g := m.prog.ImportedPackage("context").Var("Canceled")
 			return load(mustDeref(g.Type()), m.global(g))
